@@ -63,13 +63,12 @@ Section Obj.
 
   Definition props_rel : Prop :=
     match lookup (s_ "properties") kvs with
-    | None => props = None
+    | None => forall key, find_by_source_o (fun e => e) key props = None
     | Some (JObj pkvs) =>
-      exists ps, props = Some ps /\
         forall key, match lookup key pkvs with
-                    | None => find_by_source (fun e => e) key ps None = None
+                    | None => find_by_source_o (fun e => e) key props = None
                     | Some Sx => exists name req e,
-                        find_by_source (fun e => e) key ps None = Some (name, req, e) /\ sim e Sx
+                        find_by_source_o (fun e => e) key props = Some (name, req, e) /\ sim e Sx
                     end
     | Some _ => False
     end.
@@ -105,9 +104,9 @@ Section Obj.
     | Some Sx => exists name req e, decl_e key = Some (name, req, e) /\ sim e Sx
     end.
   Proof.
-    unfold decl_S, decl_e, find_by_source_o. red in Hprops.
-    destruct (lookup (s_ "properties") kvs) as [Sp|]; [|now subst props].
-    destruct Sp; try contradiction. destruct Hprops as (ps & -> & H). apply H.
+    unfold decl_S, decl_e. red in Hprops.
+    destruct (lookup (s_ "properties") kvs) as [Sp|]; [|apply Hprops].
+    destruct Sp; try contradiction. apply Hprops.
   Qed.
 
   Lemma pat_rel key : Forall2 sim (pat_es key) (pat_Ss key).
